@@ -335,6 +335,8 @@ class URL:
 
                 if not hostname.endswith("]"):
                     hostname = hostname.rsplit(":", 1)[0]
+            elif ":" in hostname and not hostname.startswith("["):
+                hostname = f"[{hostname}]"  # an IPv6 address, as `.hostname` reports it
 
             netloc = hostname
             if port is not None:
